@@ -418,6 +418,50 @@ theorem scoped_ttl_capped (p : Option Policy) (cs : Option Prefix) (ro : Option 
     · simp [hcap, ht]
     · simp [ht]; omega
 
+/-- **The scoped TTL limit survives every cache configuration**: whatever cache
+size and prefetch percentage the operator wrote — valid, or rejected by
+`Validate` and repaired by the fallback — the limit the store applies is the
+configured `cache_limit_ttl`, the repaired size is at least 1024 and the
+threshold is 0 or within 10‥90. -/
+theorem scoped_cap_survives_cache_config (size prefetch capTtl : Nat) :
+    (cacheKnobs size prefetch capTtl).ecsMaxTTL = capTtl ∧
+    1024 ≤ (cacheKnobs size prefetch capTtl).size ∧
+    ((cacheKnobs size prefetch capTtl).prefetch = 0 ∨
+      (10 ≤ (cacheKnobs size prefetch capTtl).prefetch ∧ (cacheKnobs size prefetch capTtl).prefetch ≤ 90)) := by
+  refine ⟨rfl, ?_, ?_⟩
+  · unfold cacheKnobs
+    by_cases h : size < 1024 <;> simp [h] <;> omega
+  · unfold cacheKnobs
+    by_cases h1 : size < 1024 <;> by_cases h2 : prefetch > 90 <;> simp [h1, h2] <;>
+      (try split) <;> omega
+
+/-- **What a wire client's IPv6 subnet option becomes** (the analogue of
+`wire_v4_subnet_clamped`): unless the sixteen zero-padded bytes spell an
+IPv4-mapped address (which `Clamp` refuses under family 2), exactly
+`min(netmask, ceiling)` bits leave, every other bit cleared. -/
+theorem wire_v6_subnet_clamped (pol : Policy) (s d : Subnet) (h : decodeWireSubnet s = some d)
+    (hf : s.family = 2) (hc : pol.fwd6 ≤ 128) :
+    d.family = 2 ∧ d.mask = s.mask ∧ d.mask ≤ 128 ∧ d.scope ≤ 128 ∧
+    clamp (some pol) d =
+      if isMapped16 (padTo 16 (s.addr.getD [])) then none
+      else some ⟨.v6, min s.mask pol.fwd6, maskTo 128 (min s.mask pol.fwd6) (bytesVal (padTo 16 (s.addr.getD [])))⟩ := by
+  unfold decodeWireSubnet at h
+  simp only [hf, show ¬ ((2 : Nat) = 0) by decide, show ¬ ((2 : Nat) = 1) by decide, if_false, if_true] at h
+  split at h
+  · cases h
+  · rename_i hcond
+    simp only [Bool.or_eq_true, decide_eq_true_eq, not_or, Nat.not_lt] at hcond
+    simp only [Option.some.injEq] at h
+    subst h
+    refine ⟨rfl, rfl, hcond.1, hcond.2, ?_⟩
+    have hl := padTo_length 16 (s.addr.getD [])
+    generalize padTo 16 (s.addr.getD []) = q at hl ⊢
+    have hmin : min s.mask pol.fwd6 ≤ 128 := Nat.le_trans (Nat.min_le_right _ _) hc
+    have h4 : ¬ (q.length = 4) := by omega
+    by_cases hm : isMapped16 q = true
+    · simp [clamp, ipToAddr, hl, hm]
+    · simp [clamp, ipToAddr, hl, hm, Addr.prefix?, Fam.width, Policy.fwdMax, hmin]
+
 /-- **Scoped entries are never background-refreshed**: not eligible, and the
 hit path never enqueues them whatever their remaining lifetime. -/
 theorem scoped_never_prefetched (e : Entry) (h : e.scope.isSome = true) (queueOn shouldPrefetch : Bool) :
@@ -713,6 +757,10 @@ example : decodeWireSubnet ⟨1, 19, 0, some [10, 1, 255]⟩ =
     some ⟨1, 19, 0, some [0, 0, 0, 0, 0, 0, 0, 0, 0, 0, 255, 255, 10, 1, 255, 0]⟩ ∧
     clamp (some demoPol) ⟨1, 19, 0, some [0, 0, 0, 0, 0, 0, 0, 0, 0, 0, 255, 255, 10, 1, 255, 0]⟩ = some ⟨.v4, 19, 0x0a01e000⟩ := by decide
 example : decodeWireSubnet ⟨1, 33, 0, some [10, 1, 255, 255]⟩ = none := by decide
+example : clamp (some demoPol) ((decodeWireSubnet ⟨2, 61, 0, some [0x20, 1, 0xd, 0xb8, 0xff, 0xff, 0xff, 0xff]⟩).getD ⟨0, 0, 0, none⟩) =
+    some ⟨.v6, 56, 0x20010db8ffffff000000000000000000⟩ := by decide
+-- cache size omitted and prefetch 95: the fallback keeps the 300 s scoped limit
+example : cacheKnobs 0 95 300 = ⟨1024, 0, 300⟩ ∧ cacheKnobs 4096 5 300 = ⟨4096, 10, 300⟩ := by decide
 -- two OPT records: the first one's cookie and /32 vanish
 example : setEdns0 (some demoPol) (some ⟨.v4, 0x0a010203⟩)
     ((effectiveOpts [[.other 10 "0011223344556677", .ecs ⟨1, 32, 0, some [10, 1, 2, 3]⟩], [.other 3 "x"]]).getD []) = [] := by decide
